@@ -1,6 +1,6 @@
 /* h_mt - independent contexts driven from different threads (C19).
  *
- *   h_mt <nthreads> <rounds> <seed> <workdir> <par|ser> <fixtures-dir>
+ *   h_mt <nthreads> <rounds> <seed> <workdir> <par|ser> <fixtures-dir> [log]
  *
  * Thread k runs `rounds` rounds of scenarios on its OWN contexts and files
  * under <workdir>/t<k>/ and appends every return value and a fingerprint of
@@ -23,7 +23,13 @@
 #include <unistd.h>
 #include <zck.h>
 
-static int nthreads, rounds;
+static int nthreads, rounds, logmode;
+/* messages the library delivered to the (process-wide, set-once) log callback while THIS thread was inside it */
+static __thread long tl_msgs;
+static void log_cb(const char *function, zck_log_type lt, const char *format, va_list args) {
+    (void)function; (void)lt; (void)format; (void)args;
+    tl_msgs++;
+}
 static unsigned long seed;
 static const char *workdir, *fixtures;
 
@@ -49,7 +55,7 @@ static void L(struct T *t, const char *fmt, ...) {
     va_end(ap);
     fputc('\n', t->log);
 }
-#define OP(t, name, stmt) do { double _a = now(); stmt; fprintf((t)->times, "%s %.6f %.6f\n", name, _a, now()); if(nxt(t) % 3 == 0) sched_yield(); } while(0)
+#define OP(t, name, ...) do { double _a = now(); __VA_ARGS__; fprintf((t)->times, "%s %.6f %.6f\n", name, _a, now()); if(nxt(t) % 3 == 0) sched_yield(); } while(0)
 
 static uint64_t file_fnv(const char *path) {
     int fd = open(path, O_RDONLY);
@@ -79,6 +85,8 @@ static char *gen_content(struct T *t, size_t n, unsigned variant) {
     return b;
 }
 
+/* extra writer options for the next write_file call of this thread */
+static __thread int tw_cmax, tw_chunk_hash = -1, tw_full_hash = -1;
 static int write_file(struct T *t, const char *path, const char *data, size_t n, int comp, int use_dict, int manual) {
     int fd = open(path, O_WRONLY | O_CREAT | O_TRUNC, 0644);
     if(fd < 0) return -100;
@@ -88,6 +96,9 @@ static int write_file(struct T *t, const char *path, const char *data, size_t n,
     if(!zck_set_ioption(z, ZCK_COMP_TYPE, comp)) { rc = -2; goto out; }
     if(comp == ZCK_COMP_ZSTD) zck_set_ioption(z, ZCK_ZSTD_COMP_LEVEL, 1);
     if(manual) zck_set_ioption(z, ZCK_MANUAL_CHUNK, 1);
+    if(tw_chunk_hash >= 0 && !zck_set_ioption(z, ZCK_HASH_CHUNK_TYPE, tw_chunk_hash)) { rc = -7; goto out; }
+    if(tw_full_hash >= 0 && !zck_set_ioption(z, ZCK_HASH_FULL_TYPE, tw_full_hash)) { rc = -8; goto out; }
+    if(tw_cmax > 0 && !zck_set_ioption(z, ZCK_CHUNK_MAX, tw_cmax)) { rc = -9; goto out; }
     if(use_dict && comp == ZCK_COMP_ZSTD) {
         char *d = gen_content(t, 2000, 99);
         if(!zck_set_soption(z, ZCK_COMP_DICT, d, 2000)) rc = -3;
@@ -276,9 +287,241 @@ static void scenario_round(struct T *t, int round) {
     free(B);
 }
 
+
+/* ---- second scenario block: step-by-step and pinned opens, getters, stored-bytes access, digest comparison,
+ * multipart downloads through zck_header_cb + zck_write_chunk_cb (incl. a corrupted part), header download
+ * through zck_write_zck_header_cb ------------------------------------------------------------------------- */
+static size_t build_multipart(const char *rstr, int bfd, size_t total, const char *boundary, int quoted, char **hdr, char **body, int corrupt_first) {
+    size_t cap = 1 << 16, len = 0;
+    char *b = malloc(cap);
+    const char *p = rstr;
+    int part = 0;
+    while(*p) {
+        char *e;
+        unsigned long long a = strtoull(p, &e, 10);
+        if(*e != '-') break;
+        unsigned long long z = strtoull(e + 1, &e, 10);
+        if(*e == ',') e++;
+        p = e;
+        if(z < a || z >= total) break;
+        size_t ln = z - a + 1;
+        if(len + ln + 512 > cap) { cap = (len + ln + 512) * 2; b = realloc(b, cap); }
+        len += snprintf(b + len, cap - len, "\r\n--%s\r\nContent-Type: application/octet-stream\r\nContent-Range: bytes %llu-%llu/%zu\r\n\r\n", boundary, a, z, total);
+        if(pread(bfd, b + len, ln, a) != (ssize_t)ln) break;
+        if(corrupt_first && part == 0) b[len + ln / 2] ^= 0x5a;
+        len += ln;
+        part++;
+    }
+    if(len + 256 > cap) { cap = len + 256; b = realloc(b, cap); }
+    len += snprintf(b + len, cap - len, "\r\n--%s--\r\n", boundary);
+    *body = b;
+    *hdr = malloc(400);
+    if(quoted) snprintf(*hdr, 400, "Content-Type: multipart/byteranges; boundary=\"%s\"\r\n", boundary);
+    else snprintf(*hdr, 400, "Content-Type: multipart/byteranges; boundary=%s\r\n", boundary);
+    return len;
+}
+
+static void scenario_round2(struct T *t, int round) {
+    char p1[600], p2[600], pt[600], ph[600];
+    snprintf(p1, sizeof(p1), "%s/a.zck", t->dir);
+    snprintf(p2, sizeof(p2), "%s/c.zck", t->dir);
+    snprintf(pt, sizeof(pt), "%s/tgt2.zck", t->dir);
+    snprintf(ph, sizeof(ph), "%s/hdr.zck", t->dir);
+    {
+        /* c.zck: many small chunks, checksum types that differ from thread to thread */
+        size_t n = 40000 + (nxt(t) % 60000);
+        char *Cc = gen_content(t, n, round * 2 + 1);
+        int rc;
+        tw_cmax = 1500 + 100 * (t->k % 8);
+        tw_chunk_hash = (t->k + round) % 4;
+        tw_full_hash = (t->k / 2 + round) % 4;
+        OP(t, "write", rc = write_file(t, p2, Cc, n, ((t->k + round) % 3) ? ZCK_COMP_ZSTD : ZCK_COMP_NONE, (t->k % 4) == 1, 0));
+        tw_cmax = 0; tw_chunk_hash = -1; tw_full_hash = -1;
+        L(t, "r%d write c rc=%d fnv=%016llx", round, rc, (unsigned long long)file_fnv(p2));
+        free(Cc);
+    }
+    /* getters + pinned, step-by-step open of a.zck */
+    char *hdig = NULL;
+    int htype = -1;
+    ssize_t hlen = -1;
+    {
+        int fd = open(p1, O_RDONLY);
+        zckCtx *z = zck_create();
+        int ok = 0;
+        OP(t, "getters", {
+            ok = zck_init_read(z, fd);
+            if(ok) {
+                hdig = zck_get_header_digest(z);
+                char *dd = zck_get_data_digest(z);
+                htype = zck_get_full_hash_type(z);
+                hlen = zck_get_header_length(z);
+                uint64_t h = 1469598103934665603ULL;
+                for(zckChunk *c = zck_get_first_chunk(z); c; c = zck_get_next_chunk(c)) {
+                    char *cd = zck_get_chunk_digest(c);
+                    if(cd) { h = fnv(cd, strlen(cd), h); free(cd); }
+                    ssize_t v[4] = {zck_get_chunk_start(c), zck_get_chunk_comp_size(c), zck_get_chunk_size(c), zck_get_chunk_number(c)};
+                    h = fnv(v, sizeof(v), h);
+                }
+                L(t, "r%d getters flags=%zd fht=%d fds=%zd cht=%d cds=%zd lead=%zd hdr=%zd data=%zd len=%zd det=%d hd=%s dd=%s chunks=%016llx", round,
+                  zck_get_flags(z), htype, zck_get_full_digest_size(z), zck_get_chunk_hash_type(z), zck_get_chunk_digest_size(z), zck_get_lead_length(z),
+                  hlen, zck_get_data_length(z), zck_get_length(z), (int)zck_is_detached_header(z), hdig ? hdig : "-", dd ? dd : "-", (unsigned long long)h);
+                free(dd);
+            }
+        });
+        if(!ok) L(t, "r%d getters open failed", round);
+        /* stored bytes of a few chunks, digest comparison, hash table */
+        ssize_t cnt = ok ? zck_get_chunk_count(z) : 0;
+        for(int i = 0; i < 3 && cnt > 1; i++) {
+            zckChunk *c = zck_get_chunk(z, nxt(t) % cnt);
+            ssize_t sz = zck_get_chunk_comp_size(c);
+            char *b = malloc(sz > 0 ? sz : 1);
+            ssize_t r = -9;
+            OP(t, "chunkcomp", r = zck_get_chunk_comp_data(c, b, sz));
+            L(t, "r%d chunkcomp %zd rc=%zd fnv=%016llx", round, zck_get_chunk_number(c), r, (unsigned long long)(r > 0 ? fnv(b, r, 1469598103934665603ULL) : 0));
+            free(b);
+        }
+        if(cnt > 2) {
+            int hd = -9, c1 = -9, c2 = -9;
+            OP(t, "hashdb", hd = zck_generate_hashdb(z));
+            OP(t, "cmpchunk", { c1 = zck_compare_chunk_digest(zck_get_chunk(z, 1), zck_get_chunk(z, 1)); c2 = zck_compare_chunk_digest(zck_get_chunk(z, 1), zck_get_chunk(z, 2)); });
+            L(t, "r%d hashdb=%d cmp_same=%d cmp_other=%d", round, hd, c1, c2);
+        }
+        zck_free(&z);
+        close(fd);
+    }
+    for(int variant = 0; variant < 3 && hdig; variant++) {
+        /* 0: genuine pins, validate_lead first; 1: genuine pins incl. length; 2: wrong digest (must be refused) */
+        int fd = open(p1, O_RDONLY);
+        zckCtx *z = zck_create();
+        int r0 = -9, r1 = -9, r2 = -9, r3 = -9, r4 = -9, r5 = -9, r6 = -9;
+        char *pin = strdup(hdig);
+        if(variant == 2) pin[3] = pin[3] == '0' ? '1' : '0';
+        OP(t, "pinned_open", {
+            r0 = zck_init_adv_read(z, fd);
+            r1 = zck_set_ioption(z, ZCK_VAL_HEADER_HASH_TYPE, htype);
+            r2 = zck_set_soption(z, ZCK_VAL_HEADER_DIGEST, pin, strlen(pin));
+            if(variant == 1) r3 = zck_set_ioption(z, ZCK_VAL_HEADER_LENGTH, hlen);
+            if(variant != 1) r4 = zck_validate_lead(z);
+            r5 = zck_read_lead(z);
+            r6 = r5 ? zck_read_header(z) : -1;
+        });
+        L(t, "r%d pinned v%d adv=%d type=%d digest=%d length=%d validate_lead=%d read_lead=%d read_header=%d", round, variant, r0, r1, r2, r3, r4, r5, r6);
+        free(pin);
+        zck_free(&z);
+        close(fd);
+    }
+    free(hdig);
+    /* multipart download of b.zck into a fresh target, through the header callback */
+    {
+        int bfd = open(p2, O_RDONLY);
+        zckCtx *bz = zck_create();
+        if(zck_init_read(bz, bfd)) {
+            ssize_t hl = zck_get_header_length(bz), tl = zck_get_length(bz);
+            /* the header itself arrives through zck_write_zck_header_cb */
+            int hfd = open(ph, O_RDWR | O_CREAT | O_TRUNC, 0644);
+            zckCtx *hz = zck_create();
+            int hok = zck_init_adv_read(hz, hfd);
+            zckDL *hdl = zck_dl_init(hz);
+            char *himg = malloc(hl);
+            if(pread(bfd, himg, hl, 0) != hl) hok = 0;
+            OP(t, "header_cb_download", {
+                size_t pos = 0;
+                while(pos < (size_t)hl && hok) {
+                    size_t c = 1 + nxt(t) % 700;
+                    if(c > hl - pos) c = hl - pos;
+                    if(zck_write_zck_header_cb(himg + pos, 1, c, hdl) != c) hok = 0;
+                    pos += c;
+                }
+            });
+            lseek(hfd, 0, SEEK_SET);
+            int rl = hok ? zck_read_lead(hz) : -1;
+            int rh = rl == 1 ? zck_read_header(hz) : -1;
+            L(t, "r%d header-download ok=%d read_lead=%d read_header=%d dl=%zd chunks=%zd", round, hok, rl, rh, zck_dl_get_bytes_downloaded(hdl), rh == 1 ? zck_get_chunk_count(hz) : -1);
+            zck_dl_free(&hdl);
+            free(himg);
+            /* body: continue on the same file with a full context */
+            if(ftruncate(hfd, tl) < 0) {}
+            /* every other chunk is already there, so that the missing extents are not contiguous */
+            for(zckChunk *c = zck_get_first_chunk(bz); c; c = zck_get_next_chunk(c)) {
+                ssize_t cs = zck_get_chunk_comp_size(c), st = zck_get_chunk_start(c);
+                if(zck_get_chunk_number(c) % 2 == 1 && cs > 0) {
+                    char *tmp = malloc(cs);
+                    if(pread(bfd, tmp, cs, st) == cs && pwrite(hfd, tmp, cs, st) != cs) {}
+                    free(tmp);
+                }
+            }
+            zck_free(&hz);
+            lseek(hfd, 0, SEEK_SET);
+            zckCtx *tg = zck_create();
+            int ok = zck_init_read(tg, hfd);
+            int fv = -9;
+            OP(t, "find_valid", fv = zck_find_valid_chunks(tg));
+            zckDL *dl = zck_dl_init(tg);
+            char boundary[80];
+            static const char *shapes[] = {"%08x%08x", "gc0p4Jq0M:%x'(%x)", "----=_Part_%x.%x", "a.b+c?d_%x,%x/e=f"};
+            int rounds_dl = 0, okdl = ok, corrupted = 0, failed_seen = 0;
+            while(okdl && zck_missing_chunks(tg) + zck_failed_chunks(tg) > 0 && rounds_dl < 500) {
+                rounds_dl++;
+                if(zck_failed_chunks(tg) > 0) { failed_seen += zck_failed_chunks(tg); zck_reset_failed_chunks(tg); }
+                zck_dl_reset(dl);
+                zckRange *rg = zck_get_missing_range(tg, 2 + (t->k + rounds_dl) % 5);
+                if(!rg) { okdl = 0; break; }
+                zck_dl_set_range(dl, rg);
+                char *rs = zck_get_range_char(tg, rg);
+                int nr = zck_get_range_count(rg);
+                snprintf(boundary, sizeof(boundary), shapes[(t->k + rounds_dl) % 4], (unsigned)(nxt(t) & 0xffffff), (unsigned)t->k);
+                char *hdr = NULL, *body = NULL;
+                int corrupt = (rounds_dl == 2 && !corrupted);
+                corrupted |= corrupt;
+                size_t blen = 0;
+                if(!rs) okdl = 0;
+                else if(nr >= 2) {
+                    blen = build_multipart(rs, bfd, tl, boundary, (t->k + rounds_dl) % 2, &hdr, &body, corrupt);
+                    OP(t, "header_cb", { if(zck_header_cb(hdr, 1, strlen(hdr), dl) != strlen(hdr)) okdl = 0; });
+                } else {
+                    unsigned long long a = 0, z = 0;
+                    if(sscanf(rs, "%llu-%llu", &a, &z) != 2 || z < a || z >= (unsigned long long)tl) okdl = 0;
+                    else { blen = z - a + 1; body = malloc(blen); if(pread(bfd, body, blen, a) != (ssize_t)blen) okdl = 0; if(corrupt) body[blen / 2] ^= 0x5a; }
+                }
+                int cbfail = 0;
+                OP(t, "multipart_callbacks", {
+                    size_t pos = 0;
+                    while(pos < blen && okdl) {
+                        size_t c = 1 + nxt(t) % 9000;
+                        if(c > blen - pos) c = blen - pos;
+                        if(zck_write_chunk_cb(body + pos, 1, c, dl) != c) { cbfail = 1; break; }
+                        pos += c;
+                    }
+                });
+                if(cbfail && !corrupt) okdl = 0;   /* only the corrupted response may be refused */
+                L(t, "r%d mp-round %d ranges=%d corrupt=%d cbfail=%d missing=%d failed=%d", round, rounds_dl, nr, corrupt, cbfail, zck_missing_chunks(tg), zck_failed_chunks(tg));
+                free(hdr); free(body); free(rs);
+                zck_dl_set_range(dl, NULL);
+                zck_range_free(&rg);
+            }
+            int vd = -9;
+            OP(t, "validate_data", vd = zck_validate_data_checksum(tg));
+            L(t, "r%d mp-download ok=%d rounds=%d failed_seen=%d missing=%d vd=%d tgt=%016llx b=%016llx dl=%zd", round, okdl, rounds_dl, failed_seen, zck_missing_chunks(tg), vd,
+              (unsigned long long)file_fnv(ph), (unsigned long long)file_fnv(p2), zck_dl_get_bytes_downloaded(dl));
+            (void)fv;
+            zck_dl_free(&dl);
+            zck_free(&tg);
+            close(hfd);
+        } else L(t, "r%d mp: open failed", round);
+        zck_free(&bz);
+        close(bfd);
+    }
+    (void)pt;
+}
+
 static void *thread_main(void *arg) {
     struct T *t = arg;
-    for(int r = 0; r < rounds; r++) scenario_round(t, r);
+    tl_msgs = 0;
+    for(int r = 0; r < rounds; r++) {
+        scenario_round(t, r);
+        scenario_round2(t, r);
+        if(logmode) L(t, "r%d log-messages-delivered-in-this-thread %ld", r, tl_msgs);
+    }
     return NULL;
 }
 
@@ -290,7 +533,10 @@ int main(int argc, char **argv) {
     workdir = argv[4];
     int par = !strcmp(argv[5], "par");
     fixtures = argv[6];
-    zck_set_log_level(ZCK_LOG_NONE);   /* global logging settings: once, before the threads start */
+    logmode = argc > 7 && !strcmp(argv[7], "log");
+    /* global logging settings: once, before the threads start */
+    if(logmode) { zck_set_log_callback(log_cb); zck_set_log_level(ZCK_LOG_DEBUG); }
+    else zck_set_log_level(ZCK_LOG_NONE);
     struct T *ts = calloc(nthreads, sizeof(struct T));
     pthread_t *th = calloc(nthreads, sizeof(pthread_t));
     for(int k = 0; k < nthreads; k++) {
